@@ -130,6 +130,10 @@ func (w *_nodeRepr) asKinded(stg schema.UnionRepresentation_Kinded, kind datamod
 	if haveIdx < 0 {
 		panic(fmt.Sprintf("bindnode: kinded union %s has no member", w.val.Type()))
 	}
+	if mval.Kind() == reflect.Ptr && !mval.IsNil() {
+		// a member bound to one pointer more than the union needs: read what it points to, as Representation() does
+		mval = mval.Elem()
+	}
 	w2 := *w
 	w2.val = mval
 	w2.schemaType = w.schemaType.(*schema.TypeUnion).Members()[haveIdx]
@@ -588,6 +592,10 @@ func (w *_nodeRepr) AsString() (string, error) {
 	case schema.UnionRepresentation_Stringprefix:
 		haveIdx, mval := unionMember(w.val)
 		mtyp := w.schemaType.(*schema.TypeUnion).Members()[haveIdx]
+		if mval.Kind() == reflect.Ptr && !mval.IsNil() {
+			// a member bound to one pointer more than the union needs
+			mval = mval.Elem()
+		}
 
 		w2 := *w
 		w2.val = mval
